@@ -272,6 +272,11 @@ class Bundle:
         # Check it's a valid attribute-type
         assert_bundle_attr(self, val)
 
+        # Refuse additions after elaboration *before* naming `val`:
+        # it may be an attribute we already hold (`m.y = m.x`), which a refused assignment must not rename.
+        if self._elaborated:
+            raise RuntimeError(f"Cannot add {val} to {self} after elaboration.")
+
         # Checks out! Name `val` and add it to our type-based containers.
         val.name = key
         _add(bundle=self, val=val)
